@@ -136,6 +136,16 @@ template <class CR> void add_rate(std::vector<Scenario>& v, const char* name) {
   v.push_back(s);
 }
 
+template <class CR> void add_rate_stall(std::vector<Scenario>& v, const char* name) {
+  Scenario s; s.name = name;
+  s.make = []() { CR* c = new CR("lidar", 2.0, 0.1); for (int i = 1; i <= 5; ++i) c->evaluate(durationFromMilliSecond(500 * i)); return sp(c); };   // window full, last stamp 2.5 s
+  Scenario::Op ev{"evaluate(3100ms)", [](void* o) { return std::to_string((int)static_cast<CR*>(o)->evaluate(durationFromMilliSecond(3100))); }};
+  Scenario::Op hb{"heartBeatCallback(3100ms)", [](void* o) { return std::to_string((int)static_cast<CR*>(o)->heartBeatCallback(durationFromMilliSecond(3100))); }};
+  Scenario::Op gr{"getReport()", [](void* o) { DiagnosticReport r = static_cast<CR*>(o)->getReport(); return rep(r); }};
+  s.threads = {{ev}, {hb}, {gr, gr}};
+  v.push_back(s);
+}
+
 std::vector<Scenario> scenarios() {
   std::vector<Scenario> v;
   { Scenario s; s.name = "SharedVariable<Pair>: 1 writer (2 stores), 2 readers (2+1 loads)"; using T = SharedVariable<Pair>;
@@ -160,6 +170,18 @@ std::vector<Scenario> scenarios() {
     Scenario::Op rs{"reset()", [](void* o) { static_cast<T*>(o)->reset(); return std::string("-"); }};
     Scenario::Op gv{"getVariance()", [](void* o) { return dbits(static_cast<T*>(o)->getVariance()); }}, ga{"getAverage()", [](void* o) { return dbits(static_cast<T*>(o)->getAverage()); }}, ia{"isAvailable()", [](void* o) { return std::to_string((int)static_cast<T*>(o)->isAvailable()); }};
     s.threads = {{up(1), up(3), rs, up(5)}, {gv, ia, ga}}; v.push_back(s); }
+  { Scenario s; s.name = "OnlineVariance(W=2): updater (update,update,reset,update), reader (getAverage,getVariance,isAvailable)"; using T = OnlineVariance;
+    s.make = []() { return sp(new T(1.0, 2)); };
+    auto up = [](double x) { return Scenario::Op{"update(" + std::to_string((int)x) + ")", [x](void* o) { static_cast<T*>(o)->update(x); return std::string("-"); }}; };
+    Scenario::Op rs{"reset()", [](void* o) { static_cast<T*>(o)->reset(); return std::string("-"); }};
+    Scenario::Op gv{"getVariance()", [](void* o) { return dbits(static_cast<T*>(o)->getVariance()); }}, ga{"getAverage()", [](void* o) { return dbits(static_cast<T*>(o)->getAverage()); }}, ia{"isAvailable()", [](void* o) { return std::to_string((int)static_cast<T*>(o)->isAvailable()); }};
+    s.threads = {{up(1), up(3), rs, up(5)}, {ga, gv, ia}}; v.push_back(s); }
+  { Scenario s; s.name = "OnlineAverage(W=2): updater (update,update,reset,update), reader (isAvailable,getAverage,isAvailable)"; using T = OnlineAverage;
+    s.make = []() { return sp(new T(1.0, 2)); };
+    auto up = [](double x) { return Scenario::Op{"update(" + std::to_string((int)x) + ")", [x](void* o) { static_cast<T*>(o)->update(x); return std::string("-"); }}; };
+    Scenario::Op rs{"reset()", [](void* o) { static_cast<T*>(o)->reset(); return std::string("-"); }};
+    Scenario::Op ga{"getAverage()", [](void* o) { return dbits(static_cast<T*>(o)->getAverage()); }}, ia{"isAvailable()", [](void* o) { return std::to_string((int)static_cast<T*>(o)->isAvailable()); }};
+    s.threads = {{up(1), up(3), rs, up(5)}, {ia, ga, ia}}; v.push_back(s); }
   add_checkup<CheckupEqualTo<double>>(v, "CheckupEqualTo: evaluator (evaluate,evaluate,timeout), reader (2 report copies)");
   add_checkup<CheckupGreaterThan<double>>(v, "CheckupGreaterThan: evaluator (evaluate,evaluate,timeout), reader (2 report copies)");
   add_checkup<CheckupLowerThan<double>>(v, "CheckupLowerThan: evaluator (evaluate,evaluate,timeout), reader (2 report copies)");
@@ -170,6 +192,8 @@ std::vector<Scenario> scenarios() {
     s.threads = {{ev(0.1), ev(0.9)}, {gr, gr}}; v.push_back(s); }
   add_rate<CheckupEqualToRate>(v, "CheckupEqualToRate: data thread (3 stamps), heartbeat thread (2 heartbeats), reader (1 report copy)");
   add_rate<CheckupGreaterThanRate>(v, "CheckupGreaterThanRate: data thread (3 stamps), heartbeat thread (2 heartbeats), reader (1 report copy)");
+  add_rate_stall<CheckupEqualToRate>(v, "CheckupEqualToRate: the sample that ends a 0.6 s stall || heartbeat at the same stamp || reader (2 report copies)");
+  add_rate_stall<CheckupGreaterThanRate>(v, "CheckupGreaterThanRate: the sample that ends a 0.6 s stall || heartbeat at the same stamp || reader (2 report copies)");
   // RateMonitoring used on its own from several threads is not in the statement (it names shared variables, online statistics and
   // check-ups; the monitor is reached through the rate check-up, which serialises it): no stand-alone scenario.
   return v;
